@@ -270,6 +270,8 @@ def adc_case(draw, tier, mega=False):
     rng = np.random.default_rng(k)
     # (a capacity of 0 is a legitimate value: every positive count is clipped to 0)
     sat = draw(st.sampled_from([None, None, 500, 4000.5, 65000, 500, 4000.5, 0, 0.0]))
+    if mega and sat == 0:
+        sat = 65000          # (the few million-pixel frames are not spent on all-zero outputs)
     top = 1.6 * (sat or 3000)
     frame_kind = draw(st.sampled_from(["float", "float_neg", "int", "int_neg", "const", "int_large"]))
     if frame_kind == "float":
@@ -284,15 +286,16 @@ def adc_case(draw, tier, mega=False):
         img = rng.integers(-int(0.3 * top), int(top), size=shape)
     else:
         img = np.full(shape, float(sat or 100.0))
-    if frame_kind in ("float", "float_neg") and draw(st.integers(0, 3)) == 0:
+    if frame_kind in ("float", "float_neg") and not mega and draw(st.integers(0, 3)) == 0:
         # dead / unread pixels flagged NaN: digitisation is pixel by pixel, so every other pixel (and the saturation
         # warning, which is about pixels that exceed the capacity) is unaffected
         img = img.copy()
         for _ in range(draw(st.integers(1, 3))):
             img.flat[draw(st.integers(0, img.size - 1))] = np.nan
         frame_kind += "+nan"
-    form = draw(st.sampled_from(["scalar", "poly", "pixel", "pixel_poly"]))
-    order = 1 if form in ("scalar", "pixel") else draw(st.integers(1, 4))
+    # (million-pixel frames: polynomial gains in two cases out of three)
+    form = draw(st.sampled_from(["scalar", "poly", "pixel", "pixel_poly"] if not mega else ["poly", "poly", "pixel_poly", "pixel_poly", "scalar", "pixel"]))
+    order = 1 if form in ("scalar", "pixel") else draw(st.integers(2 if mega else 1, 4))
     if form == "scalar":
         gain = draw(gen.finite(0.01, 3.0))
     elif form == "poly":
@@ -304,7 +307,9 @@ def adc_case(draw, tier, mega=False):
         gain = np.stack([rng.uniform(-1e-9, 1e-9, size=shape) * 10.0 ** (-4 * (order - 2 - d)) if d < order - 1
                          else rng.uniform(0.05, 2.0, size=shape) for d in range(order)])
     return {"img": img, "frame_kind": frame_kind, "sat": sat, "form": form, "order": order, "gain": gain,
-            "warn": draw(st.booleans()), "dtype": draw(st.sampled_from([None, None, "uint16", "int32", "float32", "uint8"]))}
+            "warn": draw(st.booleans()),
+            # (million-pixel frames: output types that hold every digital number, so that every pixel is compared)
+            "dtype": draw(st.sampled_from([None, None, "uint16", "int32", "float32", "uint8"] if not mega else [None, None, "int32", "float32"]))}
 
 
 def ref_poly(e, gain, form, order):
